@@ -518,9 +518,11 @@ class FingerprintDatabase(object):
         with smart_open.open(fn, "w") as f:
             for i in range(self.fp_num):
                 # Much more efficient to access underlying arrays
-                indices = self.array.indices[
-                    self.array.indptr[i] : self.array.indptr[i + 1]
-                ]
+                indices = np.sort(
+                    self.array.indices[
+                        self.array.indptr[i] : self.array.indptr[i + 1]
+                    ]
+                )
                 bs = "1".join(
                     [
                         "0" * j
